@@ -3,13 +3,14 @@
    reachable): the message decoder returns a value or an error for every type id and body; the AMF0 decoder for every byte
    string (termination, C14); every parse stage of the chunk deserializer in every state; get_next_message terminates within
    its fuel for every buffer and state (no loop without consuming input); the handshake step has no failure other than its
-   two declared errors (digest offsets always inside the packet, C11).  Sessions: they are the composition of these with
-   handlers that have no checked operation left (all indexing is by pattern matching in the model); the acknowledgement counter
-   saturates (C17).  PARTIAL for what a Gallina model cannot exhibit: real panics / overflow checks (harness builds the library
+   two declared errors (digest offsets always inside the packet, C11).  Sessions: C03_server_never_panics /
+   C03_client_never_panics - no call in any reachable state reaches a panic site of the model or exhausts a loop's fuel; the
+   acknowledgement counter saturates (C17).  PARTIAL for what a Gallina model cannot exhibit: real panics / overflow checks (harness builds the library
    with overflow-checks and catches unwinds), hangs (20 s watchdog) and peak heap per case (counting allocator) are
    observations of the harness on generated, mutated and random input for every entry point. *)
 From RML Require Import Model.Base Model.Amf0 Model.Chunk Model.ChunkDe Model.Messages Model.Handshake
-  Proofs.Amf0Total Proofs.TotalProofs Proofs.ChunkDeProofs Proofs.ChunkDeFuel.
+  Proofs.Amf0Total Proofs.TotalProofs Proofs.ChunkDeProofs Proofs.ChunkDeFuel Proofs.ServerProofs Proofs.SessionFrame.
+From RML Require Import Model.Server Model.Client.
 Local Open Scope N_scope.
 
 Theorem C03_message_decoder_total : forall tid data, is_value_or_error (of_payload tid data).
@@ -34,6 +35,17 @@ Proof. exact get_next_message_terminates. Qed.
 Theorem C03_chunk_driving_loop_terminates : forall pieces s acc, snd (feed_all s pieces acc) <> Some DrvFuel.
 Proof. exact feed_all_fuel_adequate. Qed.
 
+(* sessions: every public call, in every state reachable from new() by any history of inputs and application calls, returns
+   results or a declared error - no checked operation fails and no loop runs out of fuel (the message loop of handle_input
+   ends because handlers never touch the deserializer's buffer: SessionFrame.h_message_de / ch_message_de) *)
+Theorem C03_server_never_panics : forall c clock ops op,
+  snd (server_new c clock) <> RPanic /\
+  snd (server_step (server_run (fst (server_new c clock)) ops) op) <> RPanic.
+Proof. exact server_never_panics. Qed.
+
+Theorem C03_client_never_panics : forall cfg ops op, snd (client_step (client_run (client_new cfg) ops) op) <> CPanic.
+Proof. exact client_never_panics. Qed.
+
 Theorem C03_handshake_step_total : forall hmac h, match snd (hs_step hmac h) with SProgress _ | SDone _ | SFail _ => True end.
 Proof. exact hs_step_total. Qed.
 
@@ -42,4 +54,6 @@ Print Assumptions C03_amf0_decoder_total.
 Print Assumptions C03_chunk_stage_total.
 Print Assumptions C03_chunk_call_terminates.
 Print Assumptions C03_chunk_driving_loop_terminates.
+Print Assumptions C03_server_never_panics.
+Print Assumptions C03_client_never_panics.
 Print Assumptions C03_handshake_step_total.
